@@ -14,8 +14,8 @@ Definition sort_z (l : list Z) : list Z := fold_right insert_z [] l.
 
 Record snap := mkSnap { s_procs : list (Z * Z); s_live : list Z; s_zombies : list Z; s_hist : list Z; s_mood : Z }.
 
-Definition snap_of (w : world) : snap :=
-  mkSnap (snapshot w) (live w) (map fst (zombies w)) (sort_z (map fst (pidhist w))) (mood w).
+Definition snap_of (pc : list pconf) (w : world) : snap :=
+  mkSnap (snapshot pc w) (live w) (map fst (zombies w)) (sort_z (map fst (pidhist w))) (mood w).
 
 Fixpoint run_snaps (U : Z) (pc : list pconf) (gc : list gconf) (ops : list passop) (w : world) (acc : list snap)
   : world * list snap :=
@@ -23,7 +23,7 @@ Fixpoint run_snaps (U : Z) (pc : list pconf) (gc : list gconf) (ops : list passo
   | [] => (w, rev acc)
   | o :: r =>
     if crashed w || exited w then (w, rev acc)
-    else run_snaps U pc gc r (step U pc gc w o) (snap_of w :: acc)
+    else run_snaps U pc gc r (step U pc gc w o) (snap_of pc w :: acc)
   end.
 
 Definition pair_eqb (a b : Z * Z) : bool := (fst a =? fst b) && (snd a =? snd b).
@@ -54,10 +54,10 @@ Record lcase := mkCase {
   k_snaps : list snap; k_trace : list effect }.
 
 Definition check_case (c : lcase) : bool :=
-  let '(w, snaps) := run_snaps (k_U c) (k_pconfs c) (k_gconfs c) (k_ops c) (world0 (k_pconfs c)) [] in
+  let '(w, snaps) := run_snaps (k_U c) (k_pconfs c) (k_gconfs c) (k_ops c) world0 [] in
   list_eqb snap_eqb snaps (k_snaps c) && list_eqb effect_eqb (rev (out w)) (k_trace c).
 
 (* for diagnostics: the model's own answer *)
 Definition model_answer (c : lcase) : list snap * list effect :=
-  let '(w, snaps) := run_snaps (k_U c) (k_pconfs c) (k_gconfs c) (k_ops c) (world0 (k_pconfs c)) [] in
+  let '(w, snaps) := run_snaps (k_U c) (k_pconfs c) (k_gconfs c) (k_ops c) world0 [] in
   (snaps, rev (out w)).
